@@ -99,7 +99,7 @@ def add_full_list_content(tree):
                                   b"<p tal:content=\"rroot/../getchildrennames | string:refused\">c</p>"
                                   b"<div tal:replace=\"structure root/../outside-tpl | string:refused\">d</div>"
                                   b"<p tal:content=\"root/docs/../../getpath | string:refused\">e</p>"
-                                  b"<p tal:content=\"root/docs/getchildrennames\">inside is fine</p></body></html>\n")
+                                  b"<p tal:content=\"root/docs/sub/getpath\">inside is fine</p></body></html>\n")
     return [("/arch.zip", "dir"), ("/arch.zip/inside.txt", "file"), ("/arch.zip/zd", "dir"),
             ("/arch.zip/zd/nested.txt", "file"), ("/arch.zip/old.zip", "dir"), ("/arch.zip/old.zip/notes.txt", "file"),
             ("/arch.zip/zd/broken.zip", "file"), ("/arch.zip/zd/page.html", "file"), ("/arch.zip/box.mbox", "file"), ("/arch.zip/md", "dir"),
